@@ -264,3 +264,129 @@ def idx_spans(version: int, n: int):
     return [(0, h, "header"), (h, p, "fanout"), (p, p + 20 * n, "names"), (p + 20 * n, p + 24 * n, "crc32"),
             (p + 24 * n, p + 28 * n, "offsets"), (p + 28 * n, p + 28 * n + 20, "pack-checksum"),
             (p + 28 * n + 20, p + 28 * n + 40, "idx-checksum")]
+
+
+# --------------------------------------------------------------------------- reference re-reader
+# (used to hold an *installed* pack to the statement with a reader that is not dulwich's)
+
+
+def parse_idx(data: bytes):
+    """[(raw name, offset)] of an idx v1 / v2 / dulwich-v3 with 20-byte names; raises ValueError."""
+    if data[:4] == b"\xfftOc":
+        (version,) = struct.unpack(">L", data[4:8])
+        h = {2: 8, 3: 16}.get(version)
+        if h is None:
+            raise ValueError("idx version %d" % version)
+        n = struct.unpack(">L", data[h + 1020:h + 1024])[0]
+        names = h + 1024
+        offs = names + 24 * n
+        if offs + 4 * n + 40 > len(data):
+            raise ValueError("idx too short for %d entries" % n)
+        out = []
+        for i in range(n):
+            (o,) = struct.unpack(">L", data[offs + 4 * i:offs + 4 * i + 4])
+            if o & 0x80000000:
+                (o,) = struct.unpack(">Q", data[offs + 4 * n + 8 * (o & 0x7FFFFFFF):offs + 4 * n + 8 * (o & 0x7FFFFFFF) + 8])
+            out.append((data[names + 20 * i:names + 20 * i + 20], o))
+        return out
+    n = struct.unpack(">L", data[1020:1024])[0]
+    if 1024 + 24 * n + 40 > len(data):
+        raise ValueError("idx v1 too short for %d entries" % n)
+    return [(data[1024 + 24 * i + 4:1024 + 24 * i + 24], struct.unpack(">L", data[1024 + 24 * i:1024 + 24 * i + 4])[0]) for i in range(n)]
+
+
+def read_entry(pack: bytes, offset: int, limit: int = 64 << 20):
+    """One pack entry, read the way gitformat-pack says -> dict(type, declared, base, data, problem).
+    problem: None | short stable text.  Inflation is bounded by `limit`."""
+    pos = offset
+    end = len(pack) - 20
+    if not 12 <= pos < end:
+        return {"problem": "offset-outside-the-pack"}
+    c = pack[pos]
+    pos += 1
+    t = (c >> 4) & 7
+    size = c & 15
+    shift = 4
+    while c & 0x80:
+        if pos >= end:
+            return {"problem": "header-runs-off-the-pack"}
+        c = pack[pos]
+        pos += 1
+        size |= (c & 0x7F) << shift
+        shift += 7
+    base = None
+    if t == OFS_DELTA:
+        if pos >= end:
+            return {"problem": "header-runs-off-the-pack"}
+        c = pack[pos]
+        pos += 1
+        d = c & 0x7F
+        while c & 0x80:
+            if pos >= end:
+                return {"problem": "header-runs-off-the-pack"}
+            c = pack[pos]
+            pos += 1
+            d = ((d + 1) << 7) | (c & 0x7F)
+        base = ("ofs", offset - d)
+    elif t == REF_DELTA:
+        base = ("ref", pack[pos:pos + 20])
+        pos += 20
+    elif t not in TYPE_NAMES:
+        return {"problem": "type-%d" % t}
+    z = zlib.decompressobj()
+    try:
+        data = z.decompress(pack[pos:end], limit)
+    except zlib.error:
+        return {"problem": "zlib-error"}
+    if not z.eof:
+        return {"problem": "zlib-stream-incomplete-or-larger-than-%d-MiB" % (limit >> 20)}
+    out = {"type": t, "declared": size, "base": base, "data": data, "problem": None}
+    if len(data) != size:
+        out["problem"] = "size-header-disagrees-with-payload"
+    return out
+
+
+def resolve_all(pack: bytes, idx_entries, external=None):
+    """Re-read every indexed entry of a pack independently of dulwich.
+    -> [(hex name, problem or None)].  external: {raw name: (type, data)} for bases outside the pack."""
+    by_off = {o: n for n, o in idx_entries}
+    by_name = {n: o for n, o in idx_entries}
+    memo = {}
+
+    def content(off, depth=0):
+        if off in memo:
+            return memo[off]
+        if depth > 64:
+            return (None, None, "delta-chain-too-deep-or-cyclic")
+        e = read_entry(pack, off)
+        if e["problem"]:
+            r = (None, None, e["problem"])
+        elif e["base"] is None:
+            r = (e["type"], e["data"], None)
+        else:
+            kind, ref = e["base"]
+            if kind == "ofs":
+                b = content(ref, depth + 1) if ref in by_off else (None, None, "ofs-base-is-not-an-indexed-entry")
+            elif ref in by_name:
+                b = content(by_name[ref], depth + 1)
+            elif external and ref in external:
+                b = external[ref] + (None,)
+            else:
+                b = (None, None, "ref-base-not-in-the-pack")
+            if b[2]:
+                r = (None, None, b[2])
+            else:
+                try:
+                    r = (b[0], apply_delta(b[1], e["data"]), None)
+                except (ValueError, IndexError):
+                    r = (None, None, "delta-does-not-apply")
+        memo[off] = r
+        return r
+
+    out = []
+    for name, off in idx_entries:
+        t, data, problem = content(off)
+        if problem is None and obj_id(t, data) != name:
+            problem = "content-does-not-hash-to-the-indexed-name"
+        out.append((binascii.hexlify(name), problem))
+    return out
